@@ -28,7 +28,9 @@ type msgCode struct {
 	checkReq  *ast.FuncDecl
 }
 
-func (m *msgCode) name() string { return m.unit.File.Pkg + "." + m.goName + " [" + m.unit.Combo.String() + "]" }
+func (m *msgCode) name() string {
+	return m.unit.File.Pkg + "." + m.goName + " [" + m.unit.Combo.String() + "]"
+}
 
 func (m *msgCode) pos(ex *e3.Expansion, p token.Pos) string {
 	return "expanded:" + core.RelPos(ex.Fset, ex.Scratch+"/mod", p)
